@@ -81,6 +81,9 @@ func statusHandler(count *atomic.Int64) http.Handler {
 		if st == 0 {
 			st = 200
 		}
+		if st >= 500 && r.URL != nil && (r.URL.Host == "stable" || r.URL.Host == "a") {
+			st = 200 // some backends never fail: ratings differ between servers
+		}
 		w.WriteHeader(st)
 		_, _ = io.WriteString(w, "ok")
 	})
@@ -135,6 +138,23 @@ func poolOps(p interface {
 	return true
 }
 
+// ratioMeter is only ever called under the rebalancer's own mutex.
+type ratioMeter struct{ bad, all int }
+
+func (m *ratioMeter) Rating() float64 {
+	if m.all == 0 {
+		return 0
+	}
+	return float64(m.bad) / float64(m.all)
+}
+func (m *ratioMeter) Record(code int, _ time.Duration) {
+	m.all++
+	if code >= 500 {
+		m.bad++
+	}
+}
+func (m *ratioMeter) IsReady() bool { return true }
+
 func newBalancer(rebalance bool) *instance {
 	var served atomic.Int64
 	h := statusHandler(&served)
@@ -147,7 +167,10 @@ func newBalancer(rebalance bool) *instance {
 		RemoveServer(*url.URL) error
 	}(rr)
 	if rebalance {
-		rb, _ := roundrobin.NewRebalancer(rr, roundrobin.RebalancerStickySession(roundrobin.NewStickySession("sid")), roundrobin.RebalancerBackoff(time.Millisecond))
+		// an always-ready error-ratio meter, so that weights really get adjusted while
+		// requests and administration overlap (the default meter needs 10 s of history)
+		rb, _ := roundrobin.NewRebalancer(rr, roundrobin.RebalancerStickySession(roundrobin.NewStickySession("sid")),
+			roundrobin.RebalancerBackoff(50*time.Microsecond), roundrobin.RebalancerMeter(func() (roundrobin.Meter, error) { return &ratioMeter{}, nil }))
 		_ = rb.UpsertServer(mustURL("http://stable2"))
 		front, pool = rb, rb
 	}
@@ -163,6 +186,21 @@ func newBalancer(rebalance bool) *instance {
 		after: func() string {
 			if served.Load() != requests.Load() {
 				return fmt.Sprintf("%d requests issued with a stable member in the pool, handler invoked %d times", requests.Load(), served.Load())
+			}
+			// quiescent now: remove every optional server; the pool must then be exactly the stable members
+			for _, n := range serverNames {
+				_ = pool.RemoveServer(mustURL(n))
+			}
+			var left []string
+			for _, u := range pool.Servers() {
+				left = append(left, u.Host)
+			}
+			want := "stable"
+			if rebalance {
+				want = "stable stable2"
+			}
+			if strings.Join(left, " ") != want {
+				return fmt.Sprintf("after removing every optional server the pool is %v, want [%s]: an update applied outside the lock resurrected a removed server", left, want)
 			}
 			return ""
 		},
@@ -262,21 +300,38 @@ func newMetrics(withReset bool) *instance {
 	}
 }
 
-var srcExtractor = utils.ExtractorFunc(func(r *http.Request) (string, int64, error) { return r.Header.Get("X-Src"), 1, nil })
+var srcExtractor = utils.ExtractorFunc(func(r *http.Request) (string, int64, error) {
+	amt := int64(1)
+	if a := r.Header.Get("X-Amt"); a != "" {
+		amt, _ = strconv.ParseInt(a, 10, 64)
+	}
+	return r.Header.Get("X-Src"), amt, nil
+})
 
 func newRateLimiter() *instance {
 	var served atomic.Int64
 	rs := ratelimit.NewRateSet()
 	_ = rs.Add(time.Second, 5, 10)
 	_ = rs.Add(time.Minute, 100, 200)
-	tl, err := ratelimit.New(statusHandler(&served), srcExtractor, rs, ratelimit.Capacity(3))
+	tl, err := ratelimit.New(statusHandler(&served), srcExtractor, rs, ratelimit.Capacity(8)) // 4 sources: within capacity
 	if err != nil {
 		panic(err)
 	}
-	var ok atomic.Int64
+	var ok, firstContact atomic.Int64
+	start := time.Now()
 	return &instance{
 		exec: func(g int, op string) {
 			rec := httptest.NewRecorder()
+			if op == "first" { // every goroutine opens with a full-burst request of one new source
+				req := request("serve:200:newcomer")
+				req.Header.Set("X-Amt", "10")
+				tl.ServeHTTP(rec, req)
+				if rec.Code == 200 {
+					firstContact.Add(1)
+					ok.Add(1)
+				}
+				return
+			}
 			tl.ServeHTTP(rec, request(op))
 			if rec.Code != http.StatusTooManyRequests {
 				ok.Add(1)
@@ -285,6 +340,11 @@ func newRateLimiter() *instance {
 		after: func() string {
 			if served.Load() != ok.Load() {
 				return fmt.Sprintf("%d requests not answered 429 but handler invoked %d times", ok.Load(), served.Load())
+			}
+			// 5/s burst 10: the newcomer's full-burst requests admitted so far are bounded by burst + elapsed*5 + 1
+			elapsed := time.Since(start).Seconds()
+			if got, bound := firstContact.Load()*10, int64(10+elapsed*5+1); got > bound {
+				return fmt.Sprintf("lost update at first contact: %d tokens admitted for one new source within %.3fs, bound %d (concurrent requests each got a bucket of their own)", got, elapsed, bound)
 			}
 			return ""
 		},
@@ -557,6 +617,9 @@ func run(p *program) string {
 		go func(g int, ops []string) {
 			defer wg.Done()
 			<-startGate
+			if p.Kind == "ratelimit" {
+				inst.exec(g, "first")
+			}
 			for _, op := range ops {
 				inst.exec(g, op)
 			}
